@@ -517,6 +517,7 @@ type Net struct {
 	udpCfg    UDPConfig
 	udpFilter func(from, to *net.UDPAddr, data []byte) UDPVerdict
 	udpCount  map[string]int
+	udpMangle func(from, to *net.UDPAddr, data []byte) []byte
 }
 
 func New(tape *simrt.Stream, cfg Config) *Net {
@@ -540,7 +541,7 @@ func (n *Net) FaultsFired() map[string]int {
 		out[k.String()] = v
 	}
 	for k, v := range n.udpCount {
-		if k != "udp-sent" && k != "udp-delivered" {
+		if k != "udp-sent" && k != "udp-delivered" && k != "udp-mangled" {
 			out[k] = v
 		}
 	}
